@@ -12,7 +12,8 @@ CASE_TIMEOUT = "10s"
 RULE = ("random models of 2-12 types over package trees of depth 1-5 (prefix-related packages, split packages "
         "holding non-project types), implements/extends/field/call relations to project, non-project and self "
         "targets, Main classes and main methods, x merge none/header/package/both x include filters; "
-        "non-trivial = at least one relation between two project types; distinct = distinct input")
+        "non-trivial = at least one relation between two project types; distinct = distinct input"
+        '; every other filtered query is observed through `coca arch -d deps.json -x FILTERS [-H] [-P]` run after an unfiltered (larger) run in the same report directory (coca_reporter/arch.dot)')
 TRUSTED_BASE = ["modelled, not verified: gographviz printer (the harness re-parses its text with gographviz and "
                 "rebuilds keys from cluster labels), Go map iteration"]
 ASSUMPTIONS = ["package names are non-empty dotted identifiers (no leading dot, no '->' inside names)"]
